@@ -17,14 +17,16 @@ Definition save (s : list wnode) : list (N * pinst) :=
                      | None => []                (* "no state information for this node" *)
                      end) s.
 
-(* an unresolved reference is left unset *)
-Fixpoint scrub_param (live : Z -> bool) (p : param) : param :=
+(* an unresolved reference is left unset - except inside an aggregate of aggregates, whose elements the
+   reader keeps as text (GenericAggregate): there the name stays *)
+Fixpoint scrub_param_at (live : Z -> bool) (depth : nat) (p : param) : param :=
   match p with
-  | PRef n => if live n then PRef n else PNull
-  | PTyped k q => PTyped k (scrub_param live q)
-  | PList l => PList (map (scrub_param live) l)
+  | PRef n => if live n then PRef n else match depth with S (S _) => PRef n | _ => PNull end
+  | PTyped k q => PTyped k (scrub_param_at live depth q)
+  | PList l => PList (map (scrub_param_at live (S depth)) l)
   | _ => p
   end.
+Definition scrub_param (live : Z -> bool) (p : param) : param := scrub_param_at live 0 p.
 Definition scrub_inst (live : Z -> bool) (i : pinst) : pinst :=
   {| p_id := p_id i; p_body := map (fun kp => (fst kp, map (scrub_param live) (snd kp))) (p_body i) |}.
 
